@@ -1,7 +1,6 @@
 package server
 
 import (
-	"context"
 	"crypto/tls"
 	"net/http"
 	"net/http/httputil"
@@ -46,7 +45,7 @@ func HarnessRewriteStrip() {
 	inReq := &http.Request{Method: method, URL: in, Host: host, Header: http.Header{}, RemoteAddr: "1.2.3.4:5"}
 	if strip {
 		// what Router.ServeHTTP attaches when the service strips prefixes and the matched prefix is not "/"
-		inReq = inReq.WithContext(context.WithValue(inReq.Context(), contextKeyRoutingContext, &routingContext{MatchedPrefix: prefix}))
+		inReq = vWithStripContext(inReq, prefix)
 	}
 	outURL := *in
 	outURL.RawQuery = vString("cleaned_query", 3) // ReverseProxy hands Rewrite a cleaned query
